@@ -523,8 +523,12 @@ def cmpLeaf (c : Ctx) (stTol : Rat) (l : Leaf) (tok : String) : Verdict :=
     | none => .bad s!"state value {tok} not finite"
   | .approx q =>
     match parseRat tok with
-    | some y => if ratAbs (y - q) ≤ stTol then .ok
-                else .bad s!"state accumulator {ratStr y} differs from model {ratStr q} by more than {ratStr stTol}"
+    | some y =>
+      -- the allowance on the scale of the inputs, plus one rounding of the accumulator itself (a cumulative sum outgrows
+      -- its inputs: Integral / ADI without a window)
+      let tol := stTol + 4 * c.eps * ratAbs q
+      if ratAbs (y - q) ≤ tol then .ok
+      else .bad s!"state accumulator {ratStr y} differs from model {ratStr q} by more than {ratStr tol}"
     | none => .bad s!"state value {tok} not finite"
   | .const q =>
     match parseRat tok with
